@@ -1,5 +1,5 @@
 (** * C02 — tabular operators take effect in pipeline order (partial). *)
-From PQL Require Import Model.Compile Proofs.TableFacts.
+From PQL Require Import Model.Compile Model.Trans Spec.PqlSem Spec.PipeSem Proofs.TableFacts Proofs.PipelineFacts Proofs.SemanticsFacts.
 From Coq Require Import String.
 Local Open Scope list_scope.
 Local Open Scope nat_scope.
@@ -29,3 +29,25 @@ Theorem C02_can_attach : forallb (fun k => Bool.eqb (can_attach_sort k) (negb (r
                          /\ can_attach_sort_default = true.
 Proof. exact can_attach_spec. Qed.
 Print Assumptions C02_can_attach.
+
+(** The core statement, for pipelines without joins (joins: C03).  Whenever applying the operators
+    one after another, left to right, with PQL's own reading of the expressions, yields a table
+    [r], evaluating the emitted subqueries (each SELECT: source, its operator, ORDER BY, LIMIT;
+    later subqueries see earlier ones by name) with the SQL reading of the emitted expressions
+    yields the same [r]: same columns, same names, same order; same rows, same order. *)
+Theorem C02_pipeline : forall F sc source db t subqs,
+  fenv_ok F ->
+  forallb (fun o => negb (is_join o)) (tops t) = true ->
+  split_queries sc [] t = Ok subqs ->
+  forall r, run_pipeline F (ev_pql F sc) source sc db t = Some r ->
+            eval_statement F (ev_sql F sc) source db subqs = Some r.
+Proof. exact pipeline_semantics. Qed.
+Print Assumptions C02_pipeline.
+
+(** the same for any reading of expressions shared by the two sides (no axiom) *)
+Theorem C02_pipeline_generic : forall F ev source sc db0 src t subqs,
+  forallb (fun o => negb (is_join o)) (tops t) = true -> tsrc t = src ->
+  split_queries sc [] t = Ok subqs ->
+  forall r, run_pipeline F ev source sc db0 t = Some r -> eval_statement F ev source db0 subqs = Some r.
+Proof. exact split_queries_denotes_pipeline. Qed.
+Print Assumptions C02_pipeline_generic.
